@@ -169,10 +169,9 @@ theorem en_cancelArrive {c : Cfg} {st : StB} (hB : InvB c st) (hP : InvP c st) {
     ∃ st', stepB c st (.cancelArrive s) = some st' := by
   simp only [cancelPending, Bool.and_eq_true, Bool.not_eq_true'] at hcp
   obtain ⟨hcr, hca⟩ := hcp
-  have hs0 := hP.creqPos s hcr
   obtain ⟨hnb, hno⟩ := hP.runPc s hss hrun
   simp only [stepB]
-  rw [if_pos ⟨hs0, hsn, hss, hrun, hcr, hca⟩]
+  rw [if_pos ⟨hsn, hss, hrun, hcr, hca⟩]
   split
   · rename_i hl
     obtain ⟨a', ha⟩ := enA_leave (c := c) (a := st.a) hsn hss ((hB.pcLoop s).1 hl)
@@ -194,16 +193,30 @@ theorem en_cancelArrive {c : Cfg} {st : StB} (hB : InvB c st) (hP : InvP c st) {
 theorem not_tick_of {e : EvB} (h : match e with | .tick _ => False | _ => True) : ∀ d, e ≠ .tick d := by
   intro d hd; subst hd; exact h
 
+/-- an event of the run itself: neither the passing of time nor the cancellation of the top-level task from outside
+    (the two things the run cannot count on: time may not pass while something urgent is pending, and nobody is
+    obliged to cancel the run) -/
+def internalEv : EvB → Prop
+  | .tick _ => False
+  | .extCancel => False
+  | _ => True
+
+theorem internalEv.not_tick {e : EvB} (h : internalEv e) : ∀ d, e ≠ .tick d := by
+  intro d hd; subst hd; exact h
+
+theorem internalEv.not_ext {e : EvB} (h : internalEv e) : e ≠ .extCancel := by
+  intro hd; subst hd; exact h
+
 /-- (3) a main wait that can return, a reaction that is pending -/
 theorem en_loop {c : Cfg} {st : StB} (hB : InvB c st) (hP : InvP c st) {s : Nat}
     (hsn : s < c.n) (hss : c.isSched s = true) (hl : st.pcB s = .loop)
     (hu : doneSet c st.a s ≠ [] ∨ st.a.rx s ≠ none) :
-    ∃ e st', (∀ d, e ≠ .tick d) ∧ stepB c st e = some st' := by
+    ∃ e st', internalEv e ∧ stepB c st e = some st' := by
   have hrun := hB.runPh s (by simp [hl]) (by simp [hl])
   have hpc := (hB.pcLoop s).1 hl
   by_cases hcp : cancelPending st s = true
   · obtain ⟨st', h⟩ := en_cancelArrive hB hP hsn hss hrun hcp
-    exact ⟨.cancelArrive s, st', not_tick_of trivial, h⟩
+    exact ⟨.cancelArrive s, st', trivial, h⟩
   · cases hrx : st.a.rx s with
     | none =>
       have hD : doneSet c st.a s ≠ [] := by
@@ -217,7 +230,7 @@ theorem en_loop {c : Cfg} {st : StB} (hB : InvB c st) (hP : InvP c st) {s : Nat}
         simp only [ha]
         exact ⟨_, rfl⟩
       obtain ⟨st', h⟩ := this
-      exact ⟨.waitReturn s, st', not_tick_of trivial, h⟩
+      exact ⟨.waitReturn s, st', trivial, h⟩
     | some D =>
       obtain ⟨a1, ha1⟩ := enA_react_leave hsn hss hpc hrx
       obtain ⟨a2, ha2⟩ := enA_react_go hsn hss hpc hrx
@@ -232,7 +245,7 @@ theorem en_loop {c : Cfg} {st : StB} (hB : InvB c st) (hP : InvP c st) {s : Nat}
             · simp only [ha1]; exact ⟨_, rfl⟩
             · simp only [ha2]; exact ⟨_, rfl⟩
       obtain ⟨st', h⟩ := this
-      exact ⟨.react s, st', not_tick_of trivial, h⟩
+      exact ⟨.react s, st', trivial, h⟩
 
 
 theorem critOf {c : Cfg} {st : StB} (hP : InvP c st) {s : Nat} {x : Exit} (h : (st.pcB s).exitOf = some x) :
@@ -242,16 +255,16 @@ theorem critOf {c : Cfg} {st : StB} (hP : InvP c st) {s : Nat} {x : Exit} (h : (
 /-- (4) a tidy wait that can return -/
 theorem en_tidy {c : Cfg} {st : StB} (hB : InvB c st) (hP : InvP c st) {s : Nat} {x : Exit}
     (hsn : s < c.n) (hss : c.isSched s = true) (hx : st.pcB s = .tidy x) (hlc : liveChildren c st.a s = []) :
-    ∃ e st', (∀ d, e ≠ .tick d) ∧ stepB c st e = some st' := by
+    ∃ e st', internalEv e ∧ stepB c st e = some st' := by
   have hrun := hB.runPh s (by simp [hx]) (by simp [hx])
   by_cases hcp : cancelPending st s = true
   · obtain ⟨st', h⟩ := en_cancelArrive hB hP hsn hss hrun hcp
-    exact ⟨.cancelArrive s, st', not_tick_of trivial, h⟩
+    exact ⟨.cancelArrive s, st', trivial, h⟩
   · have hcp' : cancelPending st s = false := by simpa using hcp
     by_cases hd : st.didSd s = true
     · obtain ⟨pick, st', hf⟩ := en_finishRun c { st with sdValue := setAt st.sdValue s none } s x hsn hss
         (pc_exiting hB (by simp [hx, PcB.exiting])) hrun (critOf hP (by simp [hx, PcB.exitOf]))
-      refine ⟨.tidyReturn s pick, st', not_tick_of trivial, ?_⟩
+      refine ⟨.tidyReturn s pick, st', trivial, ?_⟩
       simp only [stepB, hx]
       rw [if_pos ⟨hlc, hcp'⟩]
       simp only [hd, if_true]
@@ -262,7 +275,7 @@ theorem en_tidy {c : Cfg} {st : StB} (hB : InvB c st) (hP : InvP c st) {s : Nat}
         simp only [hd]
         exact ⟨_, rfl⟩
       obtain ⟨st', h⟩ := this
-      exact ⟨.tidyReturn s 0, st', not_tick_of trivial, h⟩
+      exact ⟨.tidyReturn s 0, st', trivial, h⟩
 
 /-- (5) a relay that has not had its first step -/
 theorem en_hStep {c : Cfg} {st : StB} (hB : InvB c st) {s : Nat}
@@ -294,14 +307,14 @@ theorem en_sd_inline {c : Cfg} {st : StB} (hB : InvB c st) (hP : InvP c st) {s :
     (hsn : s < c.n) (hss : c.isSched s = true)
     (hb : if tidy then st.bc s = .btidy .inline ∧ st.pcB s = .shutTidy x else st.bc s = .bwait .inline ∧ st.pcB s = .shut x)
     (hact : activeHandlers c st s = []) :
-    ∃ e st', (∀ d, e ≠ .tick d) ∧ stepB c st e = some st' := by
+    ∃ e st', internalEv e ∧ stepB c st e = some st' := by
   have hne : st.pcB s ≠ .notBegun ∧ st.pcB s ≠ .over ∧ (st.pcB s).exiting = true ∧ (st.pcB s).exitOf = some x := by
     cases tidy <;> simp at hb <;> simp [hb.2, PcB.exiting, PcB.exitOf]
   obtain ⟨h1, h2, h3, h4⟩ := hne
   have hrun := hB.runPh s h1 h2
   by_cases hcp : cancelPending st s = true
   · obtain ⟨st', h⟩ := en_cancelArrive hB hP hsn hss hrun hcp
-    exact ⟨.cancelArrive s, st', not_tick_of trivial, h⟩
+    exact ⟨.cancelArrive s, st', trivial, h⟩
   · have hcp' : cancelPending st s = false := by simpa using hcp
     have hhcp := hcp_running hB h1 h2
     cases tidy with
@@ -310,7 +323,7 @@ theorem en_sd_inline {c : Cfg} {st : StB} (hB : InvB c st) (hP : InvP c st) {s :
       obtain ⟨pick, st', hf⟩ := en_finishRun c
         { st with bc := setAt st.bc s .bover, sdValue := setAt st.sdValue s (some true) } s x hsn hss
         (pc_exiting hB h3) hrun (critOf hP h4)
-      refine ⟨.sdWaitReturn s pick, st', not_tick_of trivial, ?_⟩
+      refine ⟨.sdWaitReturn s pick, st', trivial, ?_⟩
       simp only [stepB]
       rw [if_pos ⟨hact, hcp', hhcp⟩]
       simp only [hb.1, hb.2]
@@ -320,7 +333,7 @@ theorem en_sd_inline {c : Cfg} {st : StB} (hB : InvB c st) (hP : InvP c st) {s :
       obtain ⟨pick, st', hf⟩ := en_finishRun c
         { st with bc := setAt st.bc s .bover, sdValue := setAt st.sdValue s (some false) } s x hsn hss
         (pc_exiting hB h3) hrun (critOf hP h4)
-      refine ⟨.sdTidyReturn s pick, st', not_tick_of trivial, ?_⟩
+      refine ⟨.sdTidyReturn s pick, st', trivial, ?_⟩
       simp only [stepB]
       rw [if_pos ⟨hact, hcp', hhcp⟩]
       simp only [hb.1, hb.2]
@@ -330,14 +343,14 @@ theorem en_sd_inline {c : Cfg} {st : StB} (hB : InvB c st) (hP : InvP c st) {s :
 theorem en_sd_relay {c : Cfg} {st : StB} (hA : InvA c st.a) (hB : InvB c st) {s : Nat}
     (hsn : s < c.n) (hb : st.bc s = .bwait .relay ∨ st.bc s = .btidy .relay)
     (hact : activeHandlers c st s = []) :
-    ∃ e st', (∀ d, e ≠ .tick d) ∧ stepB c st e = some st' := by
+    ∃ e st', internalEv e ∧ stepB c st e = some st' := by
   have hr : relayActive st s = true := by
     rcases hb with hb | hb <;> simp [relayActive, hb]
   obtain ⟨hh, hss⟩ := hB.bcRelay s hr
   by_cases hhcp : hcancelPending st s = true
   · simp only [hcancelPending, Bool.and_eq_true, Bool.not_eq_true'] at hhcp
     obtain ⟨st', h⟩ := en_hCancelArrive hB hsn hss hh hr hhcp.1 hhcp.2
-    exact ⟨.hCancelArrive s, st', not_tick_of trivial, h⟩
+    exact ⟨.hCancelArrive s, st', trivial, h⟩
   · have hhcp' : hcancelPending st s = false := by simpa using hhcp
     have hcp := cp_relay hA hB (s := s) (by simp [hh]) hss
     rcases hb with hb | hb
@@ -347,19 +360,19 @@ theorem en_sd_relay {c : Cfg} {st : StB} (hA : InvA c st.a) (hB : InvB c st) {s 
         simp only [hb]
         exact ⟨_, rfl⟩
       obtain ⟨st', h⟩ := this
-      exact ⟨.sdWaitReturn s 0, st', not_tick_of trivial, h⟩
+      exact ⟨.sdWaitReturn s 0, st', trivial, h⟩
     · have : ∃ st', stepB c st (.sdTidyReturn s 0) = some st' := by
         simp only [stepB]
         rw [if_pos ⟨hact, hcp, hhcp'⟩]
         simp only [hb]
         exact ⟨_, rfl⟩
       obtain ⟨st', h⟩ := this
-      exact ⟨.sdTidyReturn s 0, st', not_tick_of trivial, h⟩
+      exact ⟨.sdTidyReturn s 0, st', trivial, h⟩
 
 theorem en_sd {c : Cfg} {st : StB} (hA : InvA c st.a) (hB : InvB c st) (hP : InvP c st) {s : Nat}
     (hsn : s < c.n) (hss : c.isSched s = true)
     (hbc : (st.bc s).isWait = true ∨ (st.bc s).isTidy = true) (hact : activeHandlers c st s = []) :
-    ∃ e st', (∀ d, e ≠ .tick d) ∧ stepB c st e = some st' := by
+    ∃ e st', internalEv e ∧ stepB c st e = some st' := by
   cases hb : st.bc s with
   | bnone => simp [hb, Bc.isWait, Bc.isTidy] at hbc
   | bover => simp [hb, Bc.isWait, Bc.isTidy] at hbc
@@ -380,14 +393,14 @@ theorem en_sd {c : Cfg} {st : StB} (hA : InvA c st.a) (hB : InvB c st) (hP : Inv
 /-- (1) a queued job that can take a slot, or whose cancellation is pending -/
 theorem en_queued {c : Cfg} {st : StB} {j : Nat} (hjn : j < c.n) (hj0 : 0 < j) (hq : st.a.ph j = .queued)
     (hor : st.a.creq j = true ∨ slotFree c st.a (c.parent j) = true) :
-    ∃ e st', (∀ d, e ≠ .tick d) ∧ stepB c st e = some st' := by
+    ∃ e st', internalEv e ∧ stepB c st e = some st' := by
   cases hc : st.a.creq j with
   | true =>
     obtain ⟨a', ha⟩ := enA_cancelAck hj0 hjn hq hc
     have : ∃ st', stepB c st (.cancelAck j) = some st' := by
       simp only [stepB, ha]; exact ⟨_, rfl⟩
     obtain ⟨st', h⟩ := this
-    exact ⟨.cancelAck j, st', not_tick_of trivial, h⟩
+    exact ⟨.cancelAck j, st', trivial, h⟩
   | false =>
     have hf : slotFree c st.a (c.parent j) = true := by
       rcases hor with h | h
@@ -397,14 +410,14 @@ theorem en_queued {c : Cfg} {st : StB} {j : Nat} (hjn : j < c.n) (hj0 : 0 < j) (
     have : ∃ st', stepB c st (.grant j) = some st' := by
       simp only [stepB, ha]; split <;> exact ⟨_, rfl⟩
     obtain ⟨st', h⟩ := this
-    exact ⟨.grant j, st', not_tick_of trivial, h⟩
+    exact ⟨.grant j, st', trivial, h⟩
 
 
-/-- C03 (no zero-time deadlock): in every reachable state, if the clock may not advance because something urgent
-    is pending, then some event other than `tick` is enabled -/
-theorem urgent_enabled (c : Cfg) (hwf : c.wf = true) (evs : List EvB) (st : StB)
+/-- `urgent_enabled` with the sharper conclusion: the enabled event is an event of the run itself — not `tick`, and not
+    the `extCancel` of the outside world either -/
+theorem urgent_enabled_internal (c : Cfg) (hwf : c.wf = true) (evs : List EvB) (st : StB)
     (h : acceptB c StB.init evs = some st) (hq : quietB c st = false) :
-    ∃ e st', (∀ d, e ≠ .tick d) ∧ stepB c st e = some st' := by
+    ∃ e st', internalEv e ∧ stepB c st e = some st' := by
   have hA := invA_of_reachB c hwf evs st h
   have hB := invB_reach c hwf evs st h
   have hP := invP_reach c hwf evs st h
@@ -413,7 +426,7 @@ theorem urgent_enabled (c : Cfg) (hwf : c.wf = true) (evs : List EvB) (st : StB)
   · exact en_queued hjn h1.1 h1.2.1 h1.2.2
   by_cases h2 : c.isSched j = true ∧ st.a.ph j = .running ∧ st.a.creq j = true ∧ st.carrived j = false
   · obtain ⟨st', h⟩ := en_cancelArrive hB hP hjn h2.1 h2.2.1 (by simp [cancelPending, h2.2.2.1, h2.2.2.2])
-    exact ⟨.cancelArrive j, st', not_tick_of trivial, h⟩
+    exact ⟨.cancelArrive j, st', trivial, h⟩
   by_cases h3 : c.isSched j = true ∧ st.pcB j = .loop ∧ (doneSet c st.a j ≠ [] ∨ st.a.rx j ≠ none)
   · exact en_loop hB hP hjn h3.1 h3.2.1 h3.2.2
   by_cases h4 : c.isSched j = true ∧ (st.pcB j).isTidy = true ∧ liveChildren c st.a j = []
@@ -423,17 +436,25 @@ theorem urgent_enabled (c : Cfg) (hwf : c.wf = true) (evs : List EvB) (st : StB)
     | _ => simp [hp, PcB.isTidy] at ht
   by_cases h5 : c.isSched j = true ∧ st.hph j = .hactive ∧ relayActive st j = false
   · obtain ⟨st', h⟩ := en_hStep hB hjn h5.1 h5.2.1 h5.2.2
-    exact ⟨.hStep j, st', not_tick_of trivial, h⟩
+    exact ⟨.hStep j, st', trivial, h⟩
   by_cases h6 : c.isSched j = true ∧ st.hph j = .hactive ∧ st.hcreq j = true ∧ st.hcarrived j = false
   · have hr : relayActive st j = true := by
       cases hr : relayActive st j
       · exact absurd ⟨h6.1, h6.2.1, hr⟩ h5
       · rfl
     obtain ⟨st', h⟩ := en_hCancelArrive hB hjn h6.1 h6.2.1 hr h6.2.2.1 h6.2.2.2
-    exact ⟨.hCancelArrive j, st', not_tick_of trivial, h⟩
+    exact ⟨.hCancelArrive j, st', trivial, h⟩
   by_cases h7 : c.isSched j = true ∧ ((st.bc j).isWait = true ∨ (st.bc j).isTidy = true) ∧ activeHandlers c st j = []
   · exact en_sd hA hB hP hjn h7.1 h7.2.1 h7.2.2
   exact absurd ⟨h1, h2, h3, h4, h5, h6, h7⟩ hnq
+
+/-- C03 (no zero-time deadlock): in every reachable state, if the clock may not advance because something urgent
+    is pending, then some event other than `tick` is enabled -/
+theorem urgent_enabled (c : Cfg) (hwf : c.wf = true) (evs : List EvB) (st : StB)
+    (h : acceptB c StB.init evs = some st) (hq : quietB c st = false) :
+    ∃ e st', (∀ d, e ≠ .tick d) ∧ stepB c st e = some st' := by
+  obtain ⟨e, st', hi, hs⟩ := urgent_enabled_internal c hwf evs st h hq
+  exact ⟨e, st', hi.not_tick, hs⟩
 
 
 theorem expired_of_within {dl : Option Nat} {now : Nat} (h : within dl now 1 = false) : expired dl now = true := by
